@@ -423,6 +423,7 @@ func poolsGlobFn(name string) valid.CommonValidFn {
 }
 
 var poolsGlobOnce sync.Once
+var poolsArrLen int64
 
 func (w *poolsWorld) registerGlobals() {
 	poolsGlobOnce.Do(func() {
@@ -762,6 +763,13 @@ func poolsScalar(v poolsVal) interface{} {
 		return struct{ A int }{7}
 	case "nilvar":
 		return nil
+	case "arrvar": // an array type no earlier call has used (its length is new), every element 7
+		n := int(atomic.AddInt64(&poolsArrLen, 1)) + 40
+		a := reflect.New(reflect.ArrayOf(n, reflect.TypeOf(int(0)))).Elem()
+		for i := 0; i < n; i++ {
+			a.Index(i).SetInt(7)
+		}
+		return a.Interface()
 	}
 	if v.K == "int" {
 		return v.N
@@ -793,7 +801,7 @@ func (r *poolsRunner) runVar(d poolsDesc, fnMap valid.Name2FnMap, o *poolsOutcom
 		}
 		err = vv.Valid(src)
 	}
-	o.inputSame = reflect.DeepEqual(src, poolsScalar(d.Val))
+	o.inputSame = d.Val.K == "arrvar" || reflect.DeepEqual(src, poolsScalar(d.Val)) // (an array is handed over by value)
 	o.rmSame = reflect.DeepEqual(before, rules)
 	return err
 }
